@@ -492,6 +492,16 @@ type c16Run struct {
 	histRan     map[string]int // order -> servers started for it
 	histDone    map[string]int // order -> servers on which every operation of the order had a positive verdict
 	perHist     []map[string]any
+	// concurrent stage (c16conc.go)
+	concStarted, concDone, concRounds, concOverlap int
+	concN                                          map[int]int // clients released together -> servers
+	perConc                                        []map[string]any
+	// refused-requests stage (c16refuse.go)
+	refStarted, refDone int
+	// violations of multi-factor configurations waiting for the single-factor verdicts of their stage
+	deferMulti bool
+	deferred   []func()
+	perRef              []map[string]any
 }
 
 const c16Watchdog = 20 * time.Second
@@ -505,6 +515,31 @@ func (rn *c16Run) fn(name string) {
 // violate attributes a failing step of a multi-factor configuration to a single
 // factor when that factor alone already fails the same step in this run.
 func (rn *c16Run) violate(c *c16Cfg, step, what string, detail map[string]any) {
+	if c.Kind == "pair" || c.Kind == "row" {
+		rn.mu.Lock()
+		if rn.deferMulti {
+			// single- and multi-factor configurations share a worker pool in this stage: the key is
+			// decided once every single-factor configuration has been judged (flushDeferred)
+			rn.deferred = append(rn.deferred, func() { rn.violateNow(c, step, what, detail) })
+			rn.mu.Unlock()
+			return
+		}
+		rn.mu.Unlock()
+	}
+	rn.violateNow(c, step, what, detail)
+}
+
+func (rn *c16Run) flushDeferred() {
+	rn.mu.Lock()
+	d := rn.deferred
+	rn.deferred, rn.deferMulti = nil, false
+	rn.mu.Unlock()
+	for _, f := range d {
+		f()
+	}
+}
+
+func (rn *c16Run) violateNow(c *c16Cfg, step, what string, detail map[string]any) {
 	key := c.key() + ":" + step
 	if c.Kind == "single" {
 		rn.mu.Lock()
@@ -1025,8 +1060,8 @@ func (rn *c16Run) thruHost(c *c16Cfg, idx int, obs map[string]any) {
 func runC16(e *Env) {
 	r := vk.NewRng(e.Seed ^ vk.HashStr("c16"+e.Tier))
 	rn := &c16Run{e: e, singleFail: map[string]bool{}, funcs: map[string]int{}, spellSeen: map[string]int{}, idSeen: map[string]int{},
-		histRan: map[string]int{}, histDone: map[string]int{}}
-	e.R.Rule = "one case = the real thruserv started with one configuration (each documented limit/timeout flag at default|small|0 one at a time, TURN issuing on/off/half-configured; thorough adds every pair of factors at every level pair plus seeded all-factor rows) and the real client functions run against it (clienthttp.CreateSession, app.buildWebSocketURL + wsclient.Dial/ReadLoop/Send as host and as receiver, ice.parseTurnServer on the received turn_credentials over --turn-server spellings x peer-id character classes); history stage: per configuration one more server per order, an order being a sequence of creates / host connects / receiver connects / envelopes / session ends over k=2..3 sessions that share the server (all created first; interleaved; late receiver joining an old session after newer ones exist; receivers before hosts; an earlier session ended; seeded random interleavings), small limits sized to exactly what the order does; every call must succeed and land in its own session; a case counts when a client function returned a verdict against a started server; distinct by (flag vector, function/role, URL spelling, peer-id class, history order, operation)"
+		histRan: map[string]int{}, histDone: map[string]int{}, concN: map[int]int{}}
+	e.R.Rule = "one case = the real thruserv started with one configuration (each documented limit/timeout flag at default|small|0 one at a time, TURN issuing on/off/half-configured; thorough adds every pair of factors at every level pair plus seeded all-factor rows) and the real client functions run against it (clienthttp.CreateSession, app.buildWebSocketURL + wsclient.Dial/ReadLoop/Send as host and as receiver, ice.parseTurnServer on the received turn_credentials over --turn-server spellings x peer-id character classes); history stage: per configuration one more server per order, an order being a sequence of creates / host connects / receiver connects / envelopes / session ends over k=2..3 sessions that share the server (all created first; interleaved; late receiver joining an old session after newer ones exist; receivers before hosts; an earlier session ended; seeded random interleavings), small limits sized to exactly what the order does; every call must succeed and land in its own session; concurrent stage: per configuration (and per TURN URL spelling) rounds in which 8-16 clients of both roles over 2-3 sessions are released together from a start barrier, each judged by the same per-client oracle (own connect, own session, credentials minted for its own peer id); refused-requests stage: per configuration one server whose history contains requests of every refusal reason thruserv has (/ws: plain GET, wrong version, missing key, POST, unknown join code, missing/bad parameters, max_receivers above the limit, receiver / socket / connect-bucket limit reached; /session: GET, bad max_receivers, above the limit, session / create-bucket limit reached) between documented-valid creates, connects and envelopes, limits sized to the valid operations only; a case counts when a client function returned a verdict against a started server; distinct by (flag vector, function/role, URL spelling, peer-id class, history order, operation)"
 	if _, err := os.Stat(filepath.Join(e.BinDir, "thruserv")); err != nil {
 		e.R.Inconcl("thruserv binary missing in " + e.BinDir)
 		e.R.Require(false, "thruserv binary not built")
@@ -1056,12 +1091,23 @@ func runC16(e *Env) {
 		seeds[i] = r.U64()
 	}
 	workers := 8
+	// debugging aid: VERIF_C16_ONLY=grid|history|concurrent|refused runs a subset of the stages; such a run never counts as held
+	only := os.Getenv("VERIF_C16_ONLY")
+	stageOn := func(name string) bool { return only == "" || strings.Contains(only, name) }
+	if only != "" {
+		e.R.Require(false, "VERIF_C16_ONLY set: a subset of the stages ran")
+	}
 	// singles first: their failures attribute the failures of multi-factor configurations
-	vk.ParallelDo(len(singles), workers, func(i int) { rn.runCfg(i, &singles[i], vk.NewRng(seeds[i]), thruHost) })
-	vk.ParallelDo(len(matrix), workers, func(i int) {
+	pdo := func(stage string, n, w int, fn func(i int)) {
+		if stageOn(stage) {
+			vk.ParallelDo(n, w, fn)
+		}
+	}
+	pdo("grid", len(singles), workers, func(i int) { rn.runCfg(i, &singles[i], vk.NewRng(seeds[i]), thruHost) })
+	pdo("grid", len(matrix), workers, func(i int) {
 		rn.runCfg(len(singles)+i, &matrix[i], vk.NewRng(seeds[len(singles)+i]), false)
 	})
-	vk.ParallelDo(len(multi), workers, func(i int) {
+	pdo("grid", len(multi), workers, func(i int) {
 		k := len(singles) + len(matrix) + i
 		rn.runCfg(k, &multi[i], vk.NewRng(seeds[k]), false)
 	})
@@ -1092,13 +1138,140 @@ func runC16(e *Env) {
 	for i := range hSeeds {
 		hSeeds[i] = hr.U64()
 	}
-	vk.ParallelDo(len(hSingles), 16, func(i int) {
+	pdo("history", len(hSingles), 16, func(i int) {
 		rn.runHistory(i, hSingles[i].cfg, &hSingles[i].ord, vk.NewRng(hSeeds[i]))
 	})
-	vk.ParallelDo(len(hMulti), 16, func(i int) {
+	pdo("history", len(hMulti), 16, func(i int) {
 		k := len(hSingles) + i
 		rn.runHistory(k, hMulti[i].cfg, &hMulti[i].ord, vk.NewRng(hSeeds[k]))
 	})
+	// the later stages reuse the history machinery: keep the history stage's own numbers
+	histAfterLaterS, histAfterLaterR := e.R.Counter("history_connect_after_later_create:sender"), e.R.Counter("history_connect_after_later_create:receiver")
+
+	tStage := time.Now()
+	stageTimes := map[string]float64{}
+	// ---- concurrent stage: N clients released together per round (c16conc.go) ----
+	cr := r.Fork()
+	var concCfgs []*c16Cfg
+	for i := range matrix {
+		concCfgs = append(concCfgs, &matrix[i])
+	}
+	for i := range singles {
+		concCfgs = append(concCfgs, &singles[i])
+	}
+	for i := range multi {
+		if e.Thorough() || multi[i].TurnMode == "on" || i%4 == 0 {
+			concCfgs = append(concCfgs, &multi[i])
+		}
+	}
+	concSeeds := make([]uint64, len(concCfgs))
+	for i := range concSeeds {
+		concSeeds[i] = cr.U64()
+	}
+	rn.deferMulti = true
+	pdo("concurrent", len(concCfgs), 12, func(i int) {
+		rounds := e.Pick(3, 8)
+		if concCfgs[i].Kind == "turn-matrix" {
+			rounds = c16ConcMatrixRounds(e)
+		} else if concCfgs[i].TurnMode == "on" {
+			rounds = e.Pick(12, 40)
+		}
+		rn.runConcurrent(i, concCfgs[i], vk.NewRng(concSeeds[i]), rounds)
+	})
+	rn.flushDeferred()
+	e.R.SetExtra("concurrent_connects", map[string]any{
+		"rounds_with_creates_released_together": e.R.Counter("concurrent_rounds_with_creates_released_together"),
+		"round":                       "S sessions created one call at a time (odd rounds: released together when the create bucket admits it), then N clients (S hosts, N-S receivers over the S sessions, peer ids of seeded character classes) released together from a start barrier; each judged on its own connect / peer_list / turn_credentials",
+		"servers_started":             rn.concStarted,
+		"servers_all_rounds_positive": rn.concDone,
+		"rounds_completed":            rn.concRounds,
+		"rounds_in_which_every_dial_started_before_the_first_returned": rn.concOverlap,
+		"servers_by_clients_released_together":                         rn.concN,
+		"connects_ok":                        map[string]int{"sender": e.R.Counter("concurrent_connects_ok:sender"), "receiver": e.R.Counter("concurrent_connects_ok:receiver")},
+		"turn_credentials_checked":           map[string]int{"sender": e.R.Counter("concurrent_turn_credentials_checked:sender"), "receiver": e.R.Counter("concurrent_turn_credentials_checked:receiver")},
+		"not_run_no_simultaneous_connects_admitted": e.R.Counter("concurrent_not_run_configuration_admits_no_simultaneous_connects"),
+		"samples": rn.perConc,
+	})
+
+	stageTimes["concurrent_s"] = time.Since(tStage).Seconds()
+	tStage = time.Now()
+	// ---- refused-requests stage: every refusal reason in the history of a server (c16refuse.go) ----
+	type rcase struct {
+		cfg      *c16Cfg
+		ratesOff bool
+		budget   time.Duration
+	}
+	var rcases []rcase
+	limitPairs := c16LimitCombos()
+	budget := time.Duration(e.Pick(6, 25)) * time.Second
+	for i := range singles {
+		rcases = append(rcases, rcase{&singles[i], true, budget})
+	}
+	for i := range limitPairs {
+		rcases = append(rcases, rcase{&limitPairs[i], true, budget})
+	}
+	for i := range multi {
+		rcases = append(rcases, rcase{&multi[i], true, budget})
+	}
+	// the same with the per-IP rate limiters as configured (default 30 connects / 10 creates per
+	// minute): the refused requests are trimmed to the tokens the buckets hold (quick) / may wait for refills (thorough)
+	rateFactor := func(c *c16Cfg) int {
+		n := 0
+		for k, lv := range c.Levels {
+			if strings.HasPrefix(k, "ws-connects-") || strings.HasPrefix(k, "session-creates-") {
+				n++
+				if lv == "0" && strings.HasSuffix(k, "-burst") {
+					n += 2 // a bucket of one token: every request waits
+				}
+			}
+		}
+		return n
+	}
+	for i := range singles {
+		if rateFactor(&singles[i]) == 0 || e.Thorough() { // otherwise (nearly) the same server as above
+			rcases = append(rcases, rcase{&singles[i], false, time.Duration(e.Pick(0, 25)) * time.Second})
+		}
+	}
+	for i := range limitPairs {
+		if rateFactor(&limitPairs[i]) == 0 || e.Thorough() {
+			rcases = append(rcases, rcase{&limitPairs[i], false, time.Duration(e.Pick(0, 25)) * time.Second})
+		}
+	}
+	// the servers that wait for bucket refills first (scheduling only)
+	sort.SliceStable(rcases, func(i, j int) bool { return rateFactor(rcases[i].cfg) > rateFactor(rcases[j].cfg) })
+	rr := r.Fork()
+	rSeeds := make([]uint64, len(rcases))
+	for i := range rSeeds {
+		rSeeds[i] = rr.U64()
+	}
+	rn.deferMulti = true
+	pdo("refused", len(rcases), 24, func(i int) {
+		// bucket refusals (which cost one refill time each) where the bucket is a factor of the configuration, or the tier has time
+		rateProbes := rcases[i].ratesOff || rcases[i].budget > 0
+		rn.runRefused(i, rcases[i].cfg, rcases[i].ratesOff, vk.NewRng(rSeeds[i]), rcases[i].budget, rateProbes)
+	})
+	rn.flushDeferred()
+	stageTimes["refused_requests_s"] = time.Since(tStage).Seconds()
+	e.R.SetExtra("stage_wall_seconds_diagnostic", stageTimes)
+	refObserved, refFollowed := map[string]int{}, map[string]int{}
+	for _, p := range c16RefusalClasses() {
+		refObserved[p] = e.R.Counter("refusal_observed:" + p)
+		refFollowed[p] = e.R.Counter("valid_op_after_refusal:" + p)
+	}
+	e.R.SetExtra("refused_requests_in_history", map[string]any{
+		"scenario":                      "cA hA rA | /session refusals | cB | creates beyond --max-sessions | /ws refusals | lA | receivers beyond --max-receivers-per-sender | upgrade failures | hB rB | xA yA | sockets beyond --max-ws-connections | xB | requests beyond the connect/create buckets, one refill | rB leaves, a new receiver takes the slot; limits sized to the valid operations only (--max-sessions 2, --max-receivers-per-sender 2, --max-ws-connections 5, bursts = requests sent)",
+		"servers_started":               rn.refStarted,
+		"servers_every_valid_op_positive": rn.refDone,
+		"cases":                         len(rcases),
+		"refusals_observed":             refObserved,
+		"refusals_followed_by_a_successful_valid_operation": refFollowed,
+		"slot_reused_after_refusals_at_full_socket_limit":   e.R.Counter("reuse_after_limit_refusal_ok"),
+		"reuse_retries": e.R.Counter("reuse_retry_after_refusal"),
+		"probe_lists_trimmed_to_token_budget": e.R.Counter("refused_history_probe_list_trimmed_to_token_budget"),
+		"not_run_pacing_too_long":             e.R.Counter("refused_history_not_run_pacing_too_long"),
+		"samples":                             rn.perRef,
+	})
+
 	orderSpecs := map[string]string{}
 	for _, o := range c16FixedOrders {
 		orderSpecs[o.Name] = o.Spec
@@ -1112,8 +1285,7 @@ func runC16(e *Env) {
 		"completed_per_order": rn.histDone,
 		"single_factor_cases": len(hSingles),
 		"multi_factor_cases":  len(hMulti),
-		"connects_after_later_create": map[string]int{"sender": e.R.Counter("history_connect_after_later_create:sender"),
-			"receiver": e.R.Counter("history_connect_after_later_create:receiver")},
+		"connects_after_later_create": map[string]int{"sender": histAfterLaterS, "receiver": histAfterLaterR},
 		"samples": rn.perHist,
 	})
 
@@ -1153,6 +1325,33 @@ func runC16(e *Env) {
 			fmt.Sprintf("history order %q completed on only %d of %d single-factor configurations", o.Name, rn.histDone[o.Name], len(singles)))
 	}
 	e.R.Require(rn.histDone["random"] >= len(singles)*e.Pick(1, 3)*8/10, "too few seeded random histories completed")
-	e.R.Require(e.R.Counter("history_connect_after_later_create:sender") >= len(singles) && e.R.Counter("history_connect_after_later_create:receiver") >= len(singles),
+	e.R.Require(histAfterLaterS >= len(singles) && histAfterLaterR >= len(singles),
 		"too few connects used a join code after later sessions had been created on the same server")
+	// concurrent stage
+	e.R.Require(rn.concStarted >= len(concCfgs)*8/10, fmt.Sprintf("only %d of %d concurrent-stage servers started", rn.concStarted, len(concCfgs)))
+	e.R.Require(rn.concDone >= len(concCfgs)*7/10, fmt.Sprintf("only %d of %d concurrent-stage servers completed all rounds", rn.concDone, len(concCfgs)))
+	e.R.Require(e.R.Counter("concurrent_connects_ok:sender") >= 3*len(matrix)*c16ConcMatrixRounds(e)*8/10 && e.R.Counter("concurrent_connects_ok:receiver") >= 13*len(matrix)*c16ConcMatrixRounds(e)*8/10,
+		"too few simultaneous connects of hosts / receivers had a verdict")
+	e.R.Require(e.R.Counter("concurrent_turn_credentials_checked:sender") >= 3*len(matrix)*c16ConcMatrixRounds(e)*8/10 && e.R.Counter("concurrent_turn_credentials_checked:receiver") >= 13*len(matrix)*c16ConcMatrixRounds(e)*8/10,
+		"too few turn_credentials received by simultaneously connecting clients were checked")
+	e.R.Require(rn.concRounds == 0 || rn.concOverlap*2 >= rn.concRounds, "in most rounds the released clients did not dial before the first one returned (no simultaneity observed)")
+	// refused-requests stage
+	e.R.Require(rn.refStarted >= len(rcases)*8/10, fmt.Sprintf("only %d of %d refused-history servers started", rn.refStarted, len(rcases)))
+	e.R.Require(rn.refDone >= len(rcases)*7/10, fmt.Sprintf("only %d of %d refused histories completed with every valid operation judged", rn.refDone, len(rcases)))
+	for _, p := range c16RefusalClasses() {
+		min := len(singles) / 2
+		switch p {
+		case "ws:receiver-limit-reached", "ws:connection-limit-reached", "session:session-limit-reached":
+			min = 6 // needs the small value of its limit: that single, its pairs
+		case "ws:max-receivers-exceeds-limit", "session:max-receivers-exceeds-limit":
+			min = len(singles) / 2
+		case "ws:rate-limit", "session:rate-limit":
+			min = 1
+		}
+		e.R.Require(refFollowed[p] >= min, fmt.Sprintf("refusal class %q was followed by a successful valid operation only %d times (want >= %d)", p, refFollowed[p], min))
+	}
+	e.R.Require(e.R.Counter("reuse_after_limit_refusal_ok") >= 4, "too few servers had a freed socket slot taken again after refusals at the full --max-ws-connections")
 }
+
+// rounds per TURN URL spelling in the concurrent stage
+func c16ConcMatrixRounds(e *Env) int { return e.Pick(32, 160) }
